@@ -6,7 +6,7 @@ TRUSTED_BASE = [
     "Coq 8.16.1 kernel (coqc)",
     "axioms: none",
     "extraction ExtrOcamlBasic+ExtrOcamlString; extract/driver_parse.ml (s-expression glue, token spelling), harness/cpp/drv_front.cpp (AST dump through the public Lexer/Parser API)",
-    "statements, functions and class members are exercised by generated programs against a Python renderer/expected-tree, not covered by a Coq theorem (partial)",
+    "statements (Parse/StmtModel.v) are modelled for one declarator per declaration, primitive and plain class types, @tracked; generic and qualified type names, multi-declarators, functions and class members are exercised by the syntax matrix only (accepted and run to their marks), not by a Coq theorem (partial)",
 ]
 BINOPS = ["||", "&&", "|", "^", "&", "==", "!=", ">", "<", ">=", "<=", "+", "-", "*", "/", "%"]
 PREOPS = ["-", "!", "~"]
@@ -105,6 +105,85 @@ def exhaustive_small():
             "(bin < (bin < %s %s) %s)" % (a, b, c), "(paren (bin > (bin < %s %s) %s))" % (a, b, c), "(un ! (paren (bin == (bin < %s (lit int 33)) (bin > %s %s))))" % (a, b, c),
             "(bin && (paren (bin < %s %s)) (paren (bin > %s (var d))))" % (a, b, c), "(new Foo (bin < %s %s) (bin > %s (var d)))" % (a, b, c)]
     return out
+
+# ---- statement trees (s-expressions of extract/driver_parse.ml: stmt_of / sx_stmt)
+PRIMS = ["int", "float", "bit", "long", "char", "string", "qubit", "boolean"]
+
+def gen_ty(rng, allow_cls=True):
+    if allow_cls and rng.random() < 0.25:
+        dims = rng.choice([[], [], ["(none)"], ["(lit %d)" % rng.randint(0, 9)]])
+        return "(ty (cls %s)%s)" % (rng.choice(["K", "Foo", "Box", "pkg.K", "a.b.C"]), "".join(" " + d for d in dims))
+    dims = []
+    for _ in range(rng.choice([0, 0, 0, 1, 1, 2, 3])):
+        r = rng.random()
+        dims.append("(none)" if r < 0.4 else ("(lit %d)" % rng.choice([0, 1, 2, 16, 123456789]) if r < 0.8 else "(expr %s)" % rng.choice(["(var n)", "(bin * (var n) (lit int %s))" % hx("2"), "(call (var f))"])))
+    return "(ty %s%s)" % (rng.choice(PRIMS), "".join(" " + d for d in dims))
+
+def gen_stmt_expr(rng, size):
+    """an expression that can begin a statement: not a block, not `measure`, not `name =`, and not something the declaration look-ahead takes for a type"""
+    r = rng.random()
+    if r < 0.3:
+        return "(call (var %s)%s)" % (rng.choice(["f", "go"]), "".join(" " + gen(rng, max(1, size // 2)) for _ in range(rng.randint(0, 2))))
+    if r < 0.45:
+        return "(post %s (var %s))" % (rng.choice(["++", "--"]), rng.choice(["i", "n"]))
+    if r < 0.6:
+        return "(call (member (var o) %s)%s)" % (rng.choice(["m", "g"]), "".join(" " + gen(rng, max(1, size // 2)) for _ in range(rng.randint(0, 2))))
+    if r < 0.72:
+        return "(memassign (var o) f %s)" % gen(rng, max(1, size - 1))
+    if r < 0.84:
+        return "(arrassign (var a) %s %s)" % (gen(rng, 2, allow_assign=False) if rng.random() < 0.5 else "(var i)", gen(rng, max(1, size - 1)))
+    if r < 0.92:
+        return "(paren %s)" % gen(rng, max(1, size - 1))
+    return "(un %s %s)" % (rng.choice(PREOPS), gen(rng, max(1, size - 1), allow_assign=False))
+
+def gen_cond(rng, size):
+    r = rng.random()
+    if r < 0.25:
+        return "(measure %s)" % rng.choice(["(var q)", "(index (var r) (lit int %s))" % hx("0"), "(member (var o) q)"])
+    if r < 0.5:
+        return "(paren %s)" % gen(rng, max(1, size - 1))
+    if r < 0.8:
+        return "(bin %s (var a) %s)" % (rng.choice(["==", "!=", "<=", ">=", "&&", "||", "+"]), gen(rng, max(1, size - 1), allow_assign=False))
+    return gen_stmt_expr(rng, size)
+
+def gen_block(rng, depth, n=None):
+    n = rng.randint(0, 3) if n is None else n
+    return "(block%s)" % "".join(" " + gen_stmt(rng, depth - 1) for _ in range(n))
+
+def gen_stmt(rng, depth):
+    r = rng.random()
+    e = lambda k=6: gen(rng, rng.randint(1, k))
+    opt = lambda: e() if rng.random() < 0.6 else "-"
+    if depth <= 0:
+        r = r * 0.62          # leaves only
+    if r < 0.14:
+        tracked = rng.random() < 0.2
+        return "(decl %d %d %s %s %s)" % (rng.random() < 0.25, tracked, gen_ty(rng), rng.choice(["v", "w", "tmp"]), opt())
+    if r < 0.22:
+        return "(return %s)" % opt()
+    if r < 0.30:
+        return "(echo %s)" % e()
+    if r < 0.35:
+        return "(reset %s)" % e(3)
+    if r < 0.40:
+        return "(smeasure %s)" % e(3)
+    if r < 0.44:
+        return "(destroy %s)" % e(3)
+    if r < 0.52:
+        return "(sassign %s %s)" % (rng.choice(["x", "y"]), e())
+    if r < 0.62:
+        return "(sexpr %s)" % gen_stmt_expr(rng, 5)
+    if r < 0.70:
+        return gen_block(rng, depth)
+    if r < 0.80:
+        return "(if %s %s %s)" % (e(), gen_block(rng, depth), gen_block(rng, depth) if rng.random() < 0.5 else "-")
+    if r < 0.86:
+        return "(while %s %s)" % (e(), gen_block(rng, depth))
+    if r < 0.94:
+        k = rng.random()
+        init = "(none)" if k < 0.25 else ("(fdecl %d %s i %s)" % (rng.random() < 0.2, gen_ty(rng), opt()) if k < 0.7 else "(fexpr %s)" % gen_stmt_expr(rng, 4))
+        return "(for %s %s %s %s)" % (init, e(), e(), gen_block(rng, depth))
+    return "(tern %s %s %s)" % (gen_cond(rng, 4), gen_stmt(rng, depth - 1), gen_stmt(rng, depth - 1))
 
 def syntax_matrix():
     """statement, declaration and annotated-member forms of the documented grammar (docs/grammar.md, docs/bloch_class_system.md,
@@ -240,6 +319,82 @@ def run(chk):
             payload = {"tree": r["tree"], "source": "echo(%s);" % src, "expected_tree": r["expect"], "parsed": c,
                        "how": "parse `function main() -> void { echo(<source>); }` and dump the echo argument (drv_front: expr <hex>)"}
             chk.report("c14-roundtrip", payload, "render-then-parse gives a different tree for `%s`" % src[:80])
+    # statement trees: the model renders each, parses its own rendering, and the real parser's tree must be the model's
+    strees = [gen_stmt(rng, rng.randint(0, 3)) for _ in range(1200 if quick else 20000)]
+    tmp = os.path.join(vlib.BUILD, "tmp", "c14s-%d" % os.getpid())
+    os.makedirs(tmp, exist_ok=True)
+    try:
+        f1 = os.path.join(tmp, "strees.txt")
+        open(f1, "w").write("".join("stree %s\n" % t for t in strees))
+        rc, om = vlib.sh([exe_m, f1], timeout=3000)
+        lms = om.splitlines()
+        if rc != 0 or len(lms) != len(strees):
+            raise RuntimeError("parse model driver failed on statements rc=%d %d/%d: %s" % (rc, len(lms), len(strees), om[-400:]))
+        srecs = []
+        for t, l in zip(strees, lms):
+            m = re.match(r"^SSRC (\S+) TREE (.*) MPARSE (.*)$", l)
+            srecs.append({"tree": t, "src_hex": m.group(1), "expect": m.group(2), "mparse": m.group(3)})
+        f2 = os.path.join(tmp, "stmts.txt")
+        open(f2, "w").write("".join("stmt %s\n" % r["src_hex"] for r in srecs))
+        rc, oc = vlib.sh([drv, f2], timeout=3000)
+        lcs = oc.splitlines()
+    finally:
+        shutil.rmtree(tmp, ignore_errors=True)
+    if len(lcs) < len(srecs):
+        chk.violation("c14-crash", {"source": bytes.fromhex(srecs[len(lcs)]["src_hex"]).decode("latin-1")}, "parser driver died on a statement")
+        lcs += ["EXC -"] * (len(srecs) - len(lcs))
+    st_round = st_bad = st_outside = 0
+    for r, c in zip(srecs, lcs):
+        src = bytes.fromhex(r["src_hex"]).decode("latin-1")
+        if r["mparse"] == r["expect"]:
+            st_round += 1
+        else:
+            st_outside += 1          # outside the round-trip theorem's hypotheses (e.g. a negative constant index): still compared with the model's parse
+        want = r["mparse"] if not r["mparse"].startswith("model-") else None
+        ok = (c == want) if want is not None else c.startswith("ERR Parse")
+        if not ok:
+            st_bad += 1
+            chk.report("c14-statement", {"tree": r["tree"], "source": src, "model_parse": r["mparse"], "parsed": c, "rendered_tree": r["expect"],
+                                         "how": "parse `function main() -> void { <source> }` and dump the body's statement (drv_front: stmt <hex>)"},
+                       "the statement `%s` parses to a different tree than the parser model gives" % src[:80])
+    chk.cov.update({"statement_trees": len(srecs), "statement_trees_round_tripping": st_round, "statement_trees_outside_the_theorem": st_outside,
+                    "statement_tree_failures": st_bad})
+    chk.sample({"statement_tree": srecs[0]["tree"], "source": bytes.fromhex(srecs[0]["src_hex"]).decode("latin-1"), "parsed": lcs[0][:400]})
+    # ... and on every single-token deletion of a sample of them the two must agree on whether one statement is there at all
+    # (a change that makes the parser accept more than the grammar does shows here)
+    msample = [t for t in strees if len(t) < 260][:(150 if quick else 2500)]
+    tmp = os.path.join(vlib.BUILD, "tmp", "c14m-%d" % os.getpid())
+    os.makedirs(tmp, exist_ok=True)
+    try:
+        f1 = os.path.join(tmp, "smut.txt")
+        open(f1, "w").write("".join("smut %s\n" % t for t in msample))
+        rc, om = vlib.sh([exe_m, f1], timeout=3000)
+        muts = [l.split() for l in om.splitlines() if l.startswith("SMUT ")]
+        if rc != 0:
+            raise RuntimeError("parse model driver failed on statement mutations: %s" % om[-300:])
+        f2 = os.path.join(tmp, "smutc.txt")
+        open(f2, "w").write("".join("stmt %s\n" % m[1] for m in muts))
+        rc, oc = vlib.sh([drv, f2], timeout=3000)
+        lcm2 = oc.splitlines()
+    finally:
+        shutil.rmtree(tmp, ignore_errors=True)
+    mut_bad = 0
+    if len(lcm2) != len(muts):
+        chk.violation("c14-crash", {"count": [len(lcm2), len(muts)]}, "parser driver died on a mutated statement")
+    mut_generic = 0
+    for m, c in zip(muts, lcm2):
+        impl = "reject" if c.startswith(("ERR", "EXC")) else "accept"
+        msrc = bytes.fromhex(m[1]).decode("latin-1") if m[1] != "-" else ""
+        if impl == "accept" and m[2] == "reject" and re.search(r"[A-Za-z_]\w* < [^;?]* > [A-Za-z_]\w*", msrc):
+            mut_generic += 1          # `name < ... > name` read as a declaration of a generic type: type arguments are not modelled
+            continue
+        if impl != m[2]:
+            mut_bad += 1
+            chk.report("c14-statement-mutant", {"source": bytes.fromhex(m[1]).decode("latin-1") if m[1] != "-" else "", "model": m[2], "implementation": c[:300],
+                                                "how": "parse `function main() -> void { <source> }`: one statement, or a parse error?"},
+                       "the parser and the statement model disagree on whether `%s` is a statement (model: %s)" % (bytes.fromhex(m[1]).decode("latin-1")[:70] if m[1] != "-" else "", m[2]))
+    chk.cov.update({"statement_mutants": len(muts), "statement_mutants_accepted_by_both": sum(1 for m, c in zip(muts, lcm2) if m[2] == "accept" and not c.startswith(("ERR", "EXC"))),
+                    "statement_mutant_failures": mut_bad, "statement_mutants_skipped_generic_type": mut_generic})
     # statements, declarations and annotated members: accepted, and run to the expected marks
     from checks import langcommon as lcm
     sm = syntax_matrix()
